@@ -288,12 +288,16 @@ theorem glueGood_ok {ds : DSymData} (hs : ValidSym ds) {m : OppMap} (hm : BInv d
 /-- a queue entry that does not come from `glue` itself names a facet of the symbol -/
 def ItemOk (ds : DSymData) (it : Item) : Prop := it.2.2 = none → FacetR ds it.1 it.2.1
 
+/-- a glued entry: a facet of the symbol, and (for `Some(j)`) a ridge of that facet -/
+def ItemR (ds : DSymData) (it : Item) : Prop :=
+  FacetR ds it.1 it.2.1 ∧ ∀ j, it.2.2 = some j → j ≤ ds.dim ∧ j ≠ it.2.1
+
 theorem glueRecLoop_ok {ds : DSymData} (hs : ValidSym ds) : ∀ (fuel : Nat) (m : OppMap)
     (todo res : List Item), BInv ds m → (∀ it ∈ todo, ItemOk ds it) →
     todo.length + realCount m ≤ fuel →
     ∃ m' out, glueRecLoop ds fuel m todo res = .ok (m', out) ∧ BInv ds m' ∧
       (∀ k, Rng ds k → oppGet m k = none → oppGet m' k = none) ∧
-      (∃ l, out = res.reverse ++ l ∧ ∀ it ∈ l, FacetR ds it.1 it.2.1) ∧
+      (∃ l, out = res.reverse ++ l ∧ ∀ it ∈ l, ItemR ds it) ∧
       realCount m' ≤ realCount m
   | fuel, m, [], res, hm, _, _ => by
     refine ⟨m, res.reverse, ?_, hm, fun _ _ h => h, ⟨[], by simp, fun _ h => by cases h⟩, Nat.le_refl _⟩
@@ -337,7 +341,12 @@ theorem glueRecLoop_ok {ds : DSymData} (hs : ValidSym ds) : ∀ (fuel : Nat) (m 
       · refine ⟨(d, i, jo) :: l, by rw [hl]; simp, ?_⟩
         intro it hit
         rcases List.mem_cons.1 hit with h | h
-        · rw [h]; exact hd
+        · rw [h]
+          refine ⟨hd, ?_⟩
+          intro j hj
+          simp only at hj
+          obtain ⟨hr, _⟩ := hgood rfl j hj
+          exact ⟨hr.2.2.2.1, fun e => hr.2.2.2.2 e.symm⟩
         · exact hlr it h
       · have := go.count; omega
 
